@@ -180,6 +180,16 @@ add("C08", "lifecycle-sim", "exploration",
     "singular algebraic block (undetermined zero-time-constant states) and non-equilibrium starts count as precondition unmet.",
     "DESIGN.md section 4, C08")
 
+add("C07", "tds-sim", "exploration",
+    "deterministic simulation: seeded single-machine systems with seeded line-switching schedules vs an independently integrated swing equation; seeded perturbations of stock cases vs the matrix-exponential response of a densely assembled linearisation; both at two step sizes",
+    "A classical machine against an infinite bus through 2-3 parallel lines is built from seeded inertia, damping, reactances, loading, voltage "
+    "and base frequency with 1-4 seeded line-switching events (on/off grid, ulp neighbours, close pairs); the real TDS (both methods) at h and "
+    "h/2 is compared with the swing equation integrated by SciPy DOP853 between switching instants from the power-flow-derived E'. Stock "
+    "cases (limiters inside, no zero time constants) are perturbed by eps*v, made consistent by a 1e-6 s segment and compared with x* + "
+    "expm(A t) d, A assembled by numpy. The error must shrink with the step and lie within three times the Richardson estimate.",
+    "Trusted: SciPy's integrator and expm as references; phasor algebra for E'; nonlinearity floor 2*response^2 in the small-signal benchmark; "
+    "backward Euler is only required to improve (<= 0.92x) at these step sizes.", "DESIGN.md section 4, C07")
+
 ENGINES = [
     {"name": "tds-sim", "path": "dst/tdssim.py", "kind_free_text": "real TDS loop under StepTap/SolverTap/TimerTap/StoreTap/ConnTap "
      "seams with seeded plans (events, segments, restarts, solver/disk/clock faults, crash points)", "serves_properties": []},
